@@ -3902,4 +3902,55 @@ example : (parseRecipe (α := Rat) C07_coreEnv "Use #{} now\n".toList).diags.toL
 example : (parseRecipe (α := Rat) C07_coreEnv "Use @{1%g} now\n".toList).diags.toList =
     [⟨.error, .parse, "empty-name:ingredient", [⟨5, 5⟩]⟩] := by decide +kernel
 
+/-- **Empty name WITH an alias, wherever the component stands** (`@|x{}`, `#|x{}`, `@ |x|y{}`; COMPONENT_ALIAS on).
+    Name tokens whose first `|` is at index `i`, the tokens BEFORE it blank (the name `parse_alias` returns), plain
+    modifier tokens, blank braces, not followed by `(`.  One iteration pushes EXACTLY the alias errors `aliasEvs`
+    (`multiple-aliases:*` iff another `|` follows, else `empty-alias:*` iff the alias text is blank), then
+    `empty-name:<component>` (error, parse; the span of the blank text before the `|`), then one `duplicate-modifier`
+    per repeated modifier token (cookware: `cookware-recipe-modifier` iff `@` is among them), then the component. -/
+theorem C07_planted_empty_name_alias (T A rest : List Tok) (cs : CharSpec) (e : Ext) (hw : WF T) (tm : Tok)
+    (ms nameT : List Tok) (tob : Tok) (Q : List Tok) (tcb : Tok) (i : Nat)
+    (hT : T = A ++ (c07p_comp tm ms nameT tob Q tcb ++ rest)) (hs : SimpleMods ms)
+    (hQ : ∀ t ∈ Q, isPadK t = true)
+    (he : e.has Gen.EXT_COMPONENT_ALIAS = true) (hi : nameT.findIdx? (fun t => t.kind == .or) = some i)
+    (hname : (buildText (offAt T (A.length + 1 + ms.length)) (nameT.take i)).isTextEmpty cs = true) :
+    (PlShape e .at tm ms nameT tob Q tcb rest →
+      PlPieceAt (α := α) T cs e A ⟨c07p_comp tm ms nameT tob Q tcb, fun evs =>
+        evs = aliasEvs "ingredient" nameT i cs ++
+          [.error ⟨.error, .parse, "empty-name:ingredient",
+            [(buildText (offAt T (A.length + 1 + ms.length)) (nameT.take i)).span]⟩] ++ dupEvs ms ++
+          [.ingredient ⟨⟨simpleFlags ms (offAt T (A.length + 1)), none,
+            buildText (offAt T (A.length + 1 + ms.length)) (nameT.take i), aliasRes nameT i cs, none, none⟩,
+          ⟨offAt T A.length, offAt T (A.length + (c07p_comp tm ms nameT tob Q tcb).length)⟩⟩]⟩) ∧
+    (PlShape e .hash tm ms nameT tob Q tcb rest →
+      PlPieceAt (α := α) T cs e A ⟨c07p_comp tm ms nameT tob Q tcb, fun evs =>
+        evs = aliasEvs "cookware" nameT i cs ++
+          [.error ⟨.error, .parse, "empty-name:cookware",
+            [(buildText (offAt T (A.length + 1 + ms.length)) (nameT.take i)).span]⟩] ++ dupEvs ms ++
+          recipeModEvs ms ++
+          [.cookware ⟨⟨simpleFlags ms (offAt T (A.length + 1)),
+            buildText (offAt T (A.length + 1 + ms.length)) (nameT.take i), aliasRes nameT i cs, none, none⟩,
+          ⟨offAt T A.length, offAt T (A.length + (c07p_comp tm ms nameT tob Q tcb).length)⟩⟩]⟩) :=
+  ⟨fun sh => c07y_ingredient_empty_name_alias_piece T A rest cs e tm ms nameT tob Q tcb i hT hw sh hs hQ he hi hname,
+   fun sh => c07y_cookware_empty_name_alias_piece T A rest cs e tm ms nameT tob Q tcb i hT hw sh hs hQ he hi hname⟩
+
+/-! non-vacuity: `Use @|x{} now` under COMPONENT_ALIAS: the hypotheses hold on the step's tokens (first `|` at index 0,
+    nothing before it); the real run reports exactly `empty-name:ingredient` at 5..5 (the alias `x` is fine). -/
+def C07_yToks2 : List Tok :=
+  [⟨.word, "Use".toList, 0⟩, ⟨.ws, [' '], 3⟩, ⟨.at, ['@'], 4⟩, ⟨.or, ['|'], 5⟩, ⟨.word, ['x'], 6⟩,
+   ⟨.openBrace, ['{'], 7⟩, ⟨.closeBrace, ['}'], 8⟩, ⟨.ws, [' '], 9⟩, ⟨.word, "now".toList, 10⟩]
+theorem C07_yWF2 : WF C07_yToks2 :=
+  WF.of_chain (off := 0) (by simp [C07_yToks2, Chain, Tok.stop, utf8Len]; decide)
+    (by intro t ht; simp [C07_yToks2] at ht; rcases ht with rfl | rfl | rfl | rfl | rfl | rfl | rfl | rfl | rfl <;> simp)
+    (by simp [C07_yToks2])
+example := (C07_planted_empty_name_alias (α := Rat) C07_yToks2 [⟨.word, "Use".toList, 0⟩, ⟨.ws, [' '], 3⟩]
+    [⟨.ws, [' '], 9⟩, ⟨.word, "now".toList, 10⟩] toyCharSpec ⟨Gen.EXT_COMPONENT_ALIAS⟩ C07_yWF2 ⟨.at, ['@'], 4⟩ []
+    [⟨.or, ['|'], 5⟩, ⟨.word, ['x'], 6⟩] ⟨.openBrace, ['{'], 7⟩ [] ⟨.closeBrace, ['}'], 8⟩ 0 rfl
+    (by intro t h; cases h) (by intro t h; cases h) (by decide) (by decide) (by decide)).1
+    ⟨rfl, Or.inl ⟨by decide, rfl⟩, by decide, rfl, (by intro t h; cases h), rfl,
+      (by intro t h; simp at h; subst h; decide)⟩
+example : (parseRecipe (α := Rat) { C07_coreEnv with ext := ⟨Gen.EXT_COMPONENT_ALIAS⟩ }
+      "Use @|x{} now\n".toList).diags.toList =
+    [⟨.error, .parse, "empty-name:ingredient", [⟨5, 5⟩]⟩] := by decide +kernel
+
 end Cook
